@@ -60,6 +60,7 @@ pub fn explore<F: Fam>(inst: &Arc<F>, spec: &CaseSpec, plan: &Plan, seed: u64, j
         loop {
             let strategy = Strategy::Prefix(prefix.clone(), plan.dfs_rotate);
             publish(&strategy);
+            tick();
             let out = run_solver(inst, &cfg_for(spec, plan, strategy));
             n += 1;
             let steps = out.sched.as_ref().map(|r| r.steps.clone()).unwrap_or_default();
@@ -75,6 +76,7 @@ pub fn explore<F: Fam>(inst: &Arc<F>, spec: &CaseSpec, plan: &Plan, seed: u64, j
     for _ in 0..plan.n_random {
         let strategy = Strategy::Random(rng.next());
         publish(&strategy);
+        tick();
         let out = run_solver(inst, &cfg_for(spec, plan, strategy));
         n += 1;
         judge(inst, &spec_with_grants(spec, plan, &out), &out);
@@ -82,6 +84,7 @@ pub fn explore<F: Fam>(inst: &Arc<F>, spec: &CaseSpec, plan: &Plan, seed: u64, j
     for _ in 0..plan.n_pct {
         let strategy = Strategy::Pct { seed: rng.next(), d: 1 + rng.usize(3), est_len };
         publish(&strategy);
+        tick();
         let out = run_solver(inst, &cfg_for(spec, plan, strategy));
         n += 1;
         judge(inst, &spec_with_grants(spec, plan, &out), &out);
